@@ -191,6 +191,23 @@ func Accessors(err error) []KV {
 		return q(k)
 	})
 	add("GetDomain", func() string { return string(errors.GetDomain(err)) })
+	add("NotInDomain", func() string {
+		// against the error's own domain, the no-domain marker and an unrelated one
+		own := errors.GetDomain(err)
+		return fmt.Sprint(errors.NotInDomain(err, own), errors.NotInDomain(err, errors.NoDomain), errors.NotInDomain(err, errors.NamedDomain("unrelated")),
+			errors.NotInDomain(err, errors.NamedDomain("unrelated"), own))
+	})
+	add("EnsureNotInDomain", func() string {
+		own := errors.GetDomain(err)
+		called := false
+		out := errors.EnsureNotInDomain(err, func(d errors.Domain, e error) error { called = true; return e }, own)
+		out2 := errors.EnsureNotInDomain(err, func(d errors.Domain, e error) error { return nil }, errors.NamedDomain("unrelated"))
+		return fmt.Sprint(called, out != nil, out2 != nil)
+	})
+	add("HasInterface", func() string {
+		return fmt.Sprint(errors.HasInterface(err, (*interface{ ErrorHint() string })(nil)),
+			errors.HasInterface(err, (*interface{ ErrorDetail() string })(nil)))
+	})
 	add("GetContextTags", func() string {
 		var b strings.Builder
 		for _, buf := range errors.GetContextTags(err) {
